@@ -9,6 +9,7 @@ import (
 	"fmt"
 	"strings"
 
+	"verifharness/cmd/c08nts/authx"
 	"verifharness/cmd/c10/ntsx"
 	"verifharness/lib"
 )
@@ -119,6 +120,15 @@ func listener(c *lib.Ctx, r *lib.Rand) {
 		m := ms[r.Intn(len(ms))]
 		send(m.B, "mutated request ("+m.Kind+")")
 	}
+	// boundary stream of the authenticator field (inner lengths whose sum wraps 2^16 or sits at the
+	// edges of the value / field / datagram; fields shorter than their own inner length fields):
+	// each datagram, then the sentinel. Quick: the subset marked Live; thorough: all of them.
+	for _, a := range authx.Cases(hdr, ntsx.RawField(0x104, uid), cookieF, r.Bytes) {
+		if a.Live || c.Thorough() {
+			c.Count("listener-auth-boundary")
+			send(a.B, a.What)
+		}
+	}
 }
 
 func gen(c *lib.Ctx) {
@@ -134,6 +144,15 @@ func gen(c *lib.Ctx) {
 		phF := ntsx.RawField(0x304, make([]byte, len(e.ck)))
 		good := ntsx.ForeignPacket(hdr, [][]byte{ntsx.RawField(0x104, uid), cookieF, phF}, e.s.C2S, r.Bytes(16), nil)
 		e.feed(good, uid, "well-formed foreign request")
+
+		// boundary stream of the authenticator field, decoder level: model vs real DecodePacket /
+		// ProcessRequest / ProcessResponse / listener branch on every datagram of authx.Cases
+		if si < c.Scale(1, 3) {
+			for _, a := range authx.Cases(hdr, ntsx.RawField(0x104, uid), cookieF, r.Bytes) {
+				c.Count("auth-boundary")
+				e.feed(a.B, uid, a.What)
+			}
+		}
 
 		// unique identifier lengths (F15: short; long: no room for a cookie in the reply)
 		for _, n := range []int{0, 4, 8, 24, 28, 31, 32, 33, 64, 256, 700, 800, 804, 808, 900, 932, 936, 1000, 1400} {
